@@ -119,6 +119,11 @@ func race2(query, file, fileB string, timeout int, confirm bool) (verdict, solve
 	for i := 0; i < n; i++ {
 		a := <-ch
 		outs = append(outs, a.s+": "+strings.TrimSpace(firstLines(a.o, 3)))
+		if a.v == "sat" && strings.HasPrefix(a.s, "z3-4.8.12") && (strings.Contains(query, "(forall ") || strings.Contains(query, "(lambda ")) {
+			// z3 4.8.12 has answered sat on quantified/lambda queries that cvc5 and z3 5.1 both refute: not a verdict
+			outs = append(outs, a.s+": sat on a quantified query ignored")
+			continue
+		}
 		if a.v == "unknown" {
 			continue
 		}
@@ -340,6 +345,9 @@ func discharge(groups []*Group, workDir string, timeout int, confirm bool, worke
 				t1 = 6 // undecided groups are retried path by path with the full timeout
 			}
 			v, s, out, secs, conf, dis := race2(j.query, j.file, j.fileB, t1, confirm)
+			if os.Getenv("GOVC_FORCE_SPLIT") != "" && len(groups[j.i].Obls) > 1 && groups[j.i].Kind != "cover" && groups[j.i].Kind != "cover-call" {
+				v = "unknown" // debugging: exercise the path-by-path retry
+			}
 			r := &Result{Group: groups[j.i], Verdict: v, Solver: s, Seconds: secs, Output: out, File: j.file, Size: j.size, Confirm: conf, Disagree: dis}
 			if v == "sat" {
 				r.Model = parseModel(out, j.names)
